@@ -97,6 +97,10 @@ class Gen:
             self.lines.append("let mut %s: %s = %s.iter().cloned().collect();" % (v, tn, "vec!" + self._items(c[1])))
         elif c[0] == "collect_ref":
             self.lines.append("let mut %s: %s = %s.iter().collect();" % (v, tn, "vec!" + self._items(c[1])))
+        elif c[0] in ("collect_opaque", "collect_ref_opaque"):
+            # through an adaptor whose size_hint() lower bound is 0 (filter): glue must not trust size hints
+            self.lines.append("let mut %s: %s = %s.iter()%s.filter(|_| true).collect();" % (
+                v, tn, "vec!" + self._items(c[1]), ".cloned()" if c[0] == "collect_opaque" else ""))
         else:
             raise ValueError("ctor " + str(c))
         for op in prog.get("ops", []):
@@ -183,6 +187,8 @@ def render_many(progs):
                 t.lower(), t, MOMENT_TYPES[t], t.lower(), t))
         if t in HIST_TYPES and HIST_TYPES[t]:
             decl.append("average::define_histogram!(hist_%s, %d);" % (t.lower(), HIST_TYPES[t]))
+        if t == "ConcatMinMax":
+            decl.append("average::concatenate!(ConcatMinMax, [Min, min], [Max, max]);")
     return """#![allow(unused_imports, unused_mut, unused_variables)]
 use average::*;
 %s
